@@ -46,7 +46,7 @@ var engineBProps = map[string]*engineB{
 	"C12": {design: "4/C12", budget: map[string]float64{"quick": 110, "thorough": 900}},
 	"C13": {design: "4/C13", fine: []string{"bus/signal.go", "bus/proxy.go", "bus/client.go"}},
 	"C14": {design: "4/C14", fine: []string{"bus/object.go"}},
-	"C15": {design: "4/C15", fine: []string{"bus/directory/directory.go"}},
+	"C15": {design: "4/C15", budget: map[string]float64{"quick": 120, "thorough": 900}, fine: []string{"bus/directory/directory.go"}},
 	"C16": {design: "4/C16", fine: []string{"bus/service.go", "bus/service_reference.go"}},
 	"C17": {design: "4/C17"},
 	"C19": {design: "4/C19", budget: map[string]float64{"quick": 100, "thorough": 900}, fine: []string{"bus/session/session.go", "bus/auth.go", "bus/client.go", "bus/proxy.go"}},
